@@ -93,6 +93,10 @@ class RCase:
             evs = parts[3].split()
             self.runs.append(Run('call', parts[1].split(), [t[2:] for t in evs if t.startswith('A:')], obs, 'A.', self))
             self.runs.append(Run('call', parts[2].split(), [t[2:] for t in evs if t.startswith('B:')], obs, 'B.', self))
+        elif kind == 'W':
+            evs = parts[3].split()
+            self.runs.append(Run('stream', parts[1].split(), [t[2:] for t in evs if t.startswith('A:')], obs, 'A.', self))
+            self.runs.append(Run('call', parts[2].split(), [t[2:] for t in evs if t.startswith('B:')], obs, 'B.', self))
         elif kind == 'Z':
             evs = parts[3].split()
             self.runs.append(Run('stream', parts[1].split(), [t[2:] for t in evs if t.startswith('A:')], obs, 'A.', self))
